@@ -35,6 +35,10 @@ type Check struct {
 	QuickS      int // wall budget in seconds
 	ThoroughS   int
 	Phases      []Phase
+	// PanicOutOfScope: the property speaks about returned verdicts or about cost; a call that panics is the
+	// subject of the totality properties (C01 / C02), not a violation of this one. Such cases are counted
+	// (extra.cases_where_the_call_panicked) and skipped.
+	PanicOutOfScope bool
 	// Setup runs once per worker process before any phase (load tables, build models).
 	Setup func(w *W) error
 	// Aux runs once in the driver after the workers (auxiliary passes that need the go tool);
@@ -85,7 +89,7 @@ func (c *Check) activePhases(tier string) []Phase {
 
 // RunWorker executes all phases for one shard and prints the JSON result.
 func RunWorker(c *Check, tier string, shard, nshards int, seed int64, budget time.Duration, journal string, only string) {
-	w := &W{Prop: c.ID, Tier: tier, Shard: shard, NShards: nshards, Seed: seed}
+	w := &W{Prop: c.ID, Tier: tier, Shard: shard, NShards: nshards, Seed: seed, PanicOutOfScope: c.PanicOutOfScope}
 	res := WorkerResult{Shard: shard}
 	if journal != "" {
 		if err := w.OpenJournal(journal); err != nil {
@@ -168,7 +172,7 @@ func RunWorker(c *Check, tier string, shard, nshards int, seed int64, budget tim
 
 // ReplayCase runs one phase's Eval on one case (fresh process) and returns its violations.
 func ReplayCase(c *Check, tier, phase, input, aux string) ([]Violation, string) {
-	w := &W{Prop: c.ID, Tier: tier, Shard: 0, NShards: 1, Replay: true}
+	w := &W{Prop: c.ID, Tier: tier, Shard: 0, NShards: 1, Replay: true, PanicOutOfScope: c.PanicOutOfScope}
 	if c.Setup != nil {
 		if err := c.Setup(w); err != nil {
 			return nil, "setup: " + err.Error()
